@@ -5,7 +5,7 @@ from vf import gens
 from vf.runner import hyp_run, run_cases, guard, fail, exc_failure
 
 RULE = ("lattice (7 families incl. triclinic and rhombohedral in both settings, pseudo-symmetric cells c=a(1+1e-3), "
-        "centrings P/I/F/A/B/C and R on hexagonal axes) x makerings(d* limit giving <= ~14 rings, tol) x ring pair "
+        "centrings P/I/F/A/B/C and R on hexagonal axes, cell edges from 2.5 to 108 A) x makerings(d* limit giving <= ~14 rings, tol) x ring pair "
         "(r1,r2) among the first 10 rings incl. r1=r2 x true hkl pairs drawn from the two rings (all pairs of rings "
         "with <= 48 members in the thorough tier, up to 24 sampled pairs otherwise) x uniform rotation; "
         "g = U.B.h exact; oracle: truth known, candidate equivalent iff UBI_cand.UB_true is integer unimodular "
@@ -32,6 +32,9 @@ def cases(draw):
         cell = list(cell)
         cell[2] = cell[0] * (1 + 1e-3)
         fam = {"cubic": "tetragonal"}.get(fam, fam)
+    # cell size: the property covers any lattice; large cells give small d* on the low order rings
+    scale = draw(st.sampled_from([1.0, 1.0, 1.0, 4.0, 12.0]))
+    cell = [x * scale for x in cell[:3]] + list(cell[3:])
     sym = draw(st.sampled_from(CENTRINGS[fam]))
     nrings = draw(st.integers(3, 10))
     r1 = draw(st.integers(0, 9))
